@@ -216,9 +216,10 @@ fn validate_command_part(command: &str) -> Result<(), CommandErrorKind> {
         return Err(CommandErrorKind::Empty);
     }
 
+    // The server's tokenizer only accepts a letter as the first character of a command word
     if let Some((i, c)) = command
         .char_indices()
-        .find(|(_, c)| !is_valid_command_char(*c))
+        .find(|(i, c)| !is_valid_command_char(*c) || (*i == 0 && *c == '_'))
     {
         Err(CommandErrorKind::InvalidCharacter(i, c))
     } else if is_command_list_command(command) {
@@ -237,7 +238,7 @@ fn validate_argument(argument: &[u8]) -> Result<(), CommandErrorKind> {
     }
 }
 
-/// Commands can consist of alphabetic chars and underscores
+/// Commands can consist of alphabetic chars and underscores (and start with a letter)
 fn is_valid_command_char(c: char) -> bool {
     c.is_ascii_alphabetic() || c == '_'
 }
